@@ -20,47 +20,70 @@ inductive LoadRes (α : Type)
 deriving Inhabited
 
 /-- loader state: table of compiled expressions (RN.Part.code refers to it by index) -/
-abbrev LM := StateM (Array EL.E)
+abbrev Tbl := Array EL.E
+abbrev LM := StateM Tbl
 
-/-- compileAttr over one attribute -/
-def compileAttr (cfg : Cfg) (a : HS.Attr) : LM (LoadRes CAttr) := do
+def LoadRes.map {α β : Type} (f : α → β) : LoadRes α → LoadRes β
+  | .ok a => .ok (f a)
+  | .err => .err | .panic => .panic | .unsupported => .unsupported
+
+/-- apply `f` to a successful result (state-passing form of the loader monad) -/
+def mapRes {α β : Type} (f : α → β) (r : LoadRes α × Tbl) : LoadRes β × Tbl := (r.1.map f, r.2)
+
+/-- sequencing: a failure ends the computation -/
+def bindRes {α β : Type} (r : LoadRes α × Tbl) (k : α → Tbl → LoadRes β × Tbl) : LoadRes β × Tbl :=
+  match r.1 with
+  | .ok a => k a r.2
+  | .err => (.err, r.2) | .panic => (.panic, r.2) | .unsupported => (.unsupported, r.2)
+
+/-- prepend one compiled part to the result of compiling the rest -/
+def consPart (p : Part) (r : LoadRes (List Part) × Tbl) : LoadRes (List Part) × Tbl := mapRes (p :: ·) r
+
+/-- the value tokens of one directive attribute, in order; every `${…}` block is parsed and appended to the table -/
+def compileParts : List CS.CTok → Tbl → LoadRes (List Part) × Tbl
+  | [], tbl => (.ok [], tbl)
+  | t :: ts, tbl =>
+    match t.kind with
+    | .literal => consPart (.lit (String.ofList t.value)) (compileParts ts tbl)
+    | .codeValue =>
+      match EL.parseCode (String.ofList t.value) with
+      | .accept e => consPart (.code tbl.size) (compileParts ts (tbl.push e))
+      | .reject => (.err, tbl)
+      | .unsupported => (.unsupported, tbl)
+    | _ => consPart .other (compileParts ts tbl)
+
+/-- the value of an attribute as compileAttr sees it (`:else` without value means `:else="true"`) -/
+def attrValueOf (cfg : Cfg) (a : HS.Attr) : Option (List Char) :=
+  if a.value.isNone && String.ofList a.name == cfg.attrPrefix ++ "else" then some "\"true\"".toList else a.value
+
+def codeScanFailed (toks : List CS.CTok) : Bool :=
+  match toks.getLast? with
+  | some t => t.value == "ERR".toList && t.start.line == 0
+  | none => false
+
+/-- a compiled directive attribute from its compiled parts -/
+def mkDirective (name : String) (v : List Char) (r : LoadRes (List Part) × Tbl) : LoadRes CAttr × Tbl :=
+  mapRes (fun parts => ⟨name, some (String.ofList v), parts⟩) r
+
+/-- compileAttr over one attribute (state-passing form) -/
+def compileAttrS (cfg : Cfg) (a : HS.Attr) (tbl : Tbl) : LoadRes CAttr × Tbl :=
   let name := String.ofList a.name
-  let value : Option (List Char) :=
-    if a.value.isNone && name == cfg.attrPrefix ++ "else" then some "\"true\"".toList else a.value
-  match value with
-  | none => return .ok ⟨name, none, []⟩
+  match attrValueOf cfg a with
+  | none => (.ok ⟨name, none, []⟩, tbl)
   | some v =>
-    if !name.startsWith cfg.attrPrefix then return .ok ⟨name, some (String.ofList v), []⟩
+    if !name.startsWith cfg.attrPrefix then (.ok ⟨name, some (String.ofList v), []⟩, tbl)
     else
       let toks := CS.scan a.valueStart v
-      let isErr : Bool := match toks.getLast? with
-        | some t => t.value == "ERR".toList && t.start.line == 0
-        | none => false
-      if isErr then return .err else
-      let mut parts : List Part := []
-      for t in toks do
-        match t.kind with
-        | .literal => parts := parts ++ [.lit (String.ofList t.value)]
-        | .codeValue =>
-          match EL.parseCode (String.ofList t.value) with
-          | .accept e =>
-            let tbl ← get
-            set (tbl.push e)
-            parts := parts ++ [.code tbl.size]
-          | .reject => return .err
-          | .unsupported => return .unsupported
-        | _ => parts := parts ++ [.other]
-      return .ok ⟨name, some (String.ofList v), parts⟩
+      if codeScanFailed toks then (.err, tbl)
+      else mkDirective name v (compileParts toks tbl)
 
-def compileAttrs (cfg : Cfg) : List HS.Attr → LM (LoadRes (List CAttr))
-  | [] => return .ok []
-  | a :: as => do
-    match ← compileAttr cfg a with
-    | .ok c =>
-      match ← compileAttrs cfg as with
-      | .ok cs => return .ok (c :: cs)
-      | .err => return .err | .panic => return .panic | .unsupported => return .unsupported
-    | .err => return .err | .panic => return .panic | .unsupported => return .unsupported
+def compileAttrsS (cfg : Cfg) : List HS.Attr → Tbl → LoadRes (List CAttr) × Tbl
+  | [], tbl => (.ok [], tbl)
+  | a :: as, tbl => bindRes (compileAttrS cfg a tbl) fun c tbl' => mapRes (c :: ·) (compileAttrsS cfg as tbl')
+
+/-- compileAttr / compileAttrs in the loader monad -/
+def compileAttr (cfg : Cfg) (a : HS.Attr) : LM (LoadRes CAttr) := fun tbl => compileAttrS cfg a tbl
+def compileAttrs (cfg : Cfg) (as : List HS.Attr) : LM (LoadRes (List CAttr)) := fun tbl => compileAttrsS cfg as tbl
 
 def lowerS (s : String) : String := String.ofList (s.toList.map Char.toLower)
 
@@ -79,73 +102,113 @@ def weight (cfg : Cfg) (a : CAttr) : Int × Int :=
     (0, ((Facts.attrWeights.find? (·.1 == cmd)).map (·.2)).getD 0)
   else (1, 0)
 
+/-- the comparator of SortedAttr: lexicographic on `weight` -/
+def ltW (cfg : Cfg) (a b : CAttr) : Bool :=
+  (weight cfg a).1 < (weight cfg b).1 || ((weight cfg a).1 == (weight cfg b).1 && (weight cfg a).2 < (weight cfg b).2)
+
+/-- stable insertion: `a` (which followed every element of the list in the source) goes before the first element
+    that is strictly greater -/
+def insertA (cfg : Cfg) (a : CAttr) : List CAttr → List CAttr
+  | [] => [a]
+  | b :: bs => if ltW cfg a b then a :: b :: bs else b :: insertA cfg a bs
+
 /-- SortedAttr (stable; the comparator is a strict weak order as long as no plain attribute is literally named
     like a weighted directive) -/
 def sortedAttrs (cfg : Cfg) (attrs : List CAttr) : List CAttr :=
-  let lt (a b : CAttr) : Bool :=
-    let (pa, wa) := weight cfg a; let (pb, wb) := weight cfg b
-    pa < pb || (pa == pb && wa < wb)
-  attrs.foldl (fun acc a =>
-    let (before, after) := acc.span (fun b => !lt a b)
-    before ++ [a] ++ after) []
+  attrs.foldl (fun acc a => insertA cfg a acc) []
 
 structure Frame where
   d : NodeD
   before : List Node       -- reversed
 
-/-- ParseTokens (a closing tag at the root is kept as a leaf) -/
-def buildTree (cfg : Cfg) (fileIdx : Nat) (toks : List HS.Token) : LM (LoadRes Node) := do
-  let mut i := 0
-  let mut stack : List Frame := []
-  let mut cur : List Node := []
-  for t in toks do
-    let id := fileIdx * 100000 + i + 1
-    i := i + 1
-    let value := String.ofList t.value
-    match t.kind, t.tag with
-    | .tag, some tg =>
-      match ← compileAttrs cfg tg.attrs with
-      | .err => return .err | .panic => return .panic | .unsupported => return .unsupported
-      | .ok attrs =>
-        let name := String.ofList tg.name
-        let isVoid := cfg.voidTags.any (fun v => lowerS v == lowerS name)
-        let selfClose := isSelfClose name attrs
-        let isClose := name.startsWith "/" || selfClose
-        let d : NodeD := { id := id, kind := .tag, value := value, tagName := name, attrs := sortedAttrs cfg attrs }
-        if isClose || isVoid then
-          if selfClose || isVoid then cur := .mk d [] none :: cur
-          else
-            match stack with
-            | fr :: rest =>
-              cur := .mk fr.d cur.reverse (some value) :: fr.before
-              stack := rest
-            | [] => cur := .mk d [] none :: cur          -- stray closing tag: leaf
-        else
-          stack := ⟨d, cur⟩ :: stack
-          cur := []
-    | .tag, none => return .err
-    | k, _ =>
-      let nk := match k with | .text => NK.text | .comment => NK.comment | _ => NK.cdata
-      cur := .mk { id := id, kind := nk, value := value, tagName := "", attrs := [] } [] none :: cur
-  -- unclosed elements stay open to the end of input
-  let mut cur' := cur
-  for fr in stack do
-    cur' := .mk fr.d cur'.reverse none :: fr.before
-  return .ok (.mk { id := fileIdx * 100000, kind := .root, value := "", tagName := "", attrs := [] } cur'.reverse none)
+/-- what ParseTokens does with a token -/
+inductive Act | leaf | open_ | close
+deriving DecidableEq, Repr
 
+/-- a token after compilation: the node it would create and what ParseTokens does with it -/
+structure Item where
+  d : NodeD
+  act : Act
+
+def nkOf : HS.Kind → NK
+  | .text => .text | .comment => .comment | _ => .cdata
+
+/-- classification of a tag token (void / self-closing: leaf; `</x>`: close; otherwise open) -/
+def tagItem (cfg : Cfg) (id : Nat) (value name : String) (attrs : List CAttr) : Item :=
+  let isVoid := cfg.voidTags.any (fun v => lowerS v == lowerS name)
+  let selfClose := isSelfClose name attrs
+  let isClose := name.startsWith "/" || selfClose
+  let d : NodeD := { id := id, kind := .tag, value := value, tagName := name, attrs := sortedAttrs cfg attrs }
+  ⟨d, if isClose || isVoid then (if selfClose || isVoid then .leaf else .close) else .open_⟩
+
+/-- one token: compile its attributes, decide what the tree builder does with it -/
+def compileTok (cfg : Cfg) (id : Nat) (t : HS.Token) (tbl : Tbl) : LoadRes Item × Tbl :=
+  match t.kind, t.tag with
+  | .tag, some tg => mapRes (tagItem cfg id (String.ofList t.value) (String.ofList tg.name)) (compileAttrsS cfg tg.attrs tbl)
+  | .tag, none => (.err, tbl)
+  | k, _ => (.ok ⟨{ id := id, kind := nkOf k, value := String.ofList t.value, tagName := "", attrs := [] }, .leaf⟩, tbl)
+
+/-- all tokens, numbered `id, id+1, …` (the first failing token decides the result, as in the Go loop) -/
+def compileToks (cfg : Cfg) : Nat → List HS.Token → Tbl → LoadRes (List Item) × Tbl
+  | _, [], tbl => (.ok [], tbl)
+  | id, t :: ts, tbl => bindRes (compileTok cfg id t tbl) fun it tbl' => mapRes (it :: ·) (compileToks cfg (id + 1) ts tbl')
+
+/-- state of ParseTokens: the open elements (innermost first) and the finished children of the innermost one -/
+structure BS where
+  stack : List Frame
+  cur : List Node          -- reversed
+
+/-- ParseTokens on one token (a closing tag at the root is kept as a leaf) -/
+def stepItem (bs : BS) (it : Item) : BS :=
+  match it.act with
+  | .leaf => { bs with cur := .mk it.d [] none :: bs.cur }
+  | .open_ => { stack := ⟨it.d, bs.cur⟩ :: bs.stack, cur := [] }
+  | .close =>
+    match bs.stack with
+    | fr :: rest => { stack := rest, cur := .mk fr.d bs.cur.reverse (some it.d.value) :: fr.before }
+    | [] => { bs with cur := .mk it.d [] none :: bs.cur }          -- stray closing tag: leaf
+
+/-- unclosed elements stay open to the end of input -/
+def closeAll : List Frame → List Node → List Node
+  | [], cur => cur
+  | fr :: rest, cur => closeAll rest (.mk fr.d cur.reverse none :: fr.before)
+
+def rootD : NodeD := { id := 0, kind := .root, value := "", tagName := "", attrs := [] }
+
+/-- the tree of a compiled token list -/
+def assemble (items : List Item) : Node :=
+  let bs := items.foldl stepItem ⟨[], []⟩
+  .mk rootD (closeAll bs.stack bs.cur).reverse none
+
+/-- first node id of file `fileIdx` (ids are internal to the model; every root has id 0, token ids are ≥ 1) -/
+def firstId (fileIdx : Nat) : Nat := fileIdx * 100000 + 1
+
+/-- ParseTokens, state-passing form -/
+def buildTreeS (cfg : Cfg) (fileIdx : Nat) (toks : List HS.Token) (tbl : Tbl) : LoadRes Node × Tbl :=
+  mapRes assemble (compileToks cfg (firstId fileIdx) toks tbl)
+
+/-- ParseTokens in the loader monad -/
+def buildTree (cfg : Cfg) (fileIdx : Nat) (toks : List HS.Token) : LM (LoadRes Node) :=
+  fun tbl => buildTreeS cfg fileIdx toks tbl
+
+/-- value of the next sibling when it is whitespace-only text -/
+def nextBlankOf : List Node → Option String
+  | [] => none
+  | nx :: _ => if RN.isBlankText nx then some nx.d.value else none
+
+def setSib (k : Node) (prev : Option Nat) (nb : Option String) : Node :=
+  .mk { k.d with prevTag := prev, nextBlank := nb } k.kids k.endVal
+
+def nextPrev (k : Node) (prev : Option Nat) : Option Nat := if RN.isTagNode k then some k.d.id else prev
+
+mutual
 /-- annotate every child with its previous sibling tag and the following blank text (node.go) -/
-partial def annotate (n : Node) : Node :=
-  let kids := n.kids
-  let rec go (prev : Option Nat) : List Node → List Node
-    | [] => []
-    | k :: rest =>
-      let nextBlank := match rest.head? with
-        | some nx => if RN.isBlankText nx then some nx.d.value else none
-        | none => none
-      let k' := annotate k
-      let k'' : Node := .mk { k'.d with prevTag := prev, nextBlank := nextBlank } k'.kids k'.endVal
-      k'' :: go (if RN.isTagNode k then some k.d.id else prev) rest
-  .mk n.d (go none kids) n.endVal
+def annotate : Node → Node
+  | .mk d kids e => .mk d (annotateL none kids) e
+def annotateL : Option Nat → List Node → List Node
+  | _, [] => []
+  | prev, k :: rest => setSib (annotate k) prev (nextBlankOf rest) :: annotateL (nextPrev k prev) rest
+end
 
 end EN
 
@@ -294,39 +357,77 @@ def trimBlankKids (kids : List Node) : List Node :=
   let n := kids.length
   (kids.zipIdx.filter fun (k, i) => !((i == 0 || i + 1 == n) && RN.isBlankText k)).map (·.1)
 
+/-- root of a registered fragment -/
+def fragRoot (kids : List Node) : Node := .mk rootD (trimBlankKids kids) none
+
+/-- addDefinedTpl on one node: register its `define`, if any -/
+def defineHere (cfg : Cfg) (cx : Ctx) (d : NodeD) (kids : List Node) (tpls : List (String × Node)) :
+    LoadRes (List (String × Node)) :=
+  if d.kind == .tag then
+    match d.attrs.find? (fun a => a.name == cfg.attrPrefix ++ "define") with
+    | none => .ok tpls
+    | some a =>
+      match attrEvaluate cx a [emptyMap] with
+      | (.error _, _) => .err
+      | (.ok nameS, lg) =>
+        if lg.contains unsupportedEv then .unsupported
+        else if tpls.any (·.1 == nameS) then .err
+        else .ok (tpls ++ [(nameS, fragRoot kids)])
+  else .ok tpls
+
+mutual
 /-- addDefinedTpl: pre-order walk registering every `define` -/
-partial def addDefined (cfg : Cfg) (cx : Ctx) (n : Node) (tpls : List (String × Node)) : LoadRes (List (String × Node)) :=
-  let here : LoadRes (List (String × Node)) :=
-    if n.d.kind == .tag then
-      match n.d.attrs.find? (fun a => a.name == cfg.attrPrefix ++ "define") with
-      | none => .ok tpls
-      | some a =>
-        match attrEvaluate cx a [emptyMap] with
-        | (.error _, _) => .err
-        | (.ok nameS, lg) =>
-          if lg.contains unsupportedEv then .unsupported
-          else if tpls.any (·.1 == nameS) then .err
-          else .ok (tpls ++ [(nameS, .mk { id := n.d.id + 50000, kind := .root, value := "", tagName := "", attrs := [] } (trimBlankKids n.kids) none)])
-    else .ok tpls
-  n.kids.foldl (fun acc k => match acc with | .ok t => addDefined cfg cx k t | r => r) here
+def addDefined (cfg : Cfg) (cx : Ctx) : Node → List (String × Node) → LoadRes (List (String × Node))
+  | .mk d kids _, tpls =>
+    match defineHere cfg cx d kids tpls with
+    | .ok t => addDefinedL cfg cx kids t
+    | .err => .err | .panic => .panic | .unsupported => .unsupported
+def addDefinedL (cfg : Cfg) (cx : Ctx) : List Node → List (String × Node) → LoadRes (List (String × Node))
+  | [], tpls => .ok tpls
+  | k :: ks, tpls =>
+    match addDefined cfg cx k tpls with
+    | .ok t => addDefinedL cfg cx ks t
+    | .err => .err | .panic => .panic | .unsupported => .unsupported
+end
+
+def scanCfg (cfg : Cfg) : HS.Cfg := ⟨cfg.textTags.map String.toList⟩
+
+/-- the manager after the fragments of a file were registered -/
+def withTemplates (m : Mgr) (name : String) (cx : Ctx) (r : LoadRes (List (String × Node))) : LoadRes Mgr :=
+  match r with
+  | .ok tpls => .ok { m with templates := tpls, files := m.files ++ [name], cx := cx }
+  | .err => .err | .panic => .panic | .unsupported => .unsupported
+
+/-- register a parsed file: the file is registered before its fragments (and would stay registered when a fragment
+    name is a duplicate) -/
+def registerFile (cfg : Cfg) (fns : List (String × FnSpec)) (name : String) (m : Mgr) (r : LoadRes Node × Tbl) : LoadRes Mgr :=
+  match r.1 with
+  | .ok root0 =>
+    withTemplates m name { exprs := r.2, fns := fns }
+      (addDefined cfg { exprs := r.2, fns := fns } (annotate root0) (m.templates ++ [(name, annotate root0)]))
+  | .err => .err | .panic => .panic | .unsupported => .unsupported
 
 /-- tplManager.Add for one file -/
 def addFile (cfg : Cfg) (fns : List (String × FnSpec)) (fileIdx : Nat) (name : String) (src : String) (m : Mgr) : LoadRes Mgr :=
   if m.templates.any (·.1 == name) then .err else
-  match HS.scan ⟨cfg.textTags.map String.toList⟩ src.toList with
+  match HS.scan (scanCfg cfg) src.toList with
   | .error (.panic _) => .panic
   | .error _ => .err
-  | .ok toks =>
-    let (r, exprs) := (buildTree cfg fileIdx toks).run m.cx.exprs
-    match r with
+  | .ok toks => registerFile cfg fns name m (buildTreeS cfg fileIdx toks m.cx.exprs)
+
+def emptyMgr (cfg : Cfg) (fns : List (String × FnSpec)) : Mgr :=
+  { cfg := cfg, templates := [], files := [], cx := { exprs := #[], fns := fns } }
+
+/-- load the files (name, source) in order, numbering them `i+1, i+2, …`; the first failure decides -/
+def loadFrom (cfg : Cfg) (fns : List (String × FnSpec)) : Nat → List (String × String) → Mgr → LoadRes Mgr
+  | _, [], m => .ok m
+  | i, f :: rest, m =>
+    match addFile cfg fns (i + 1) f.1 f.2 m with
+    | .ok m' => loadFrom cfg fns (i + 1) rest m'
     | .err => .err | .panic => .panic | .unsupported => .unsupported
-    | .ok root0 =>
-      let root := annotate root0
-      let cx : Ctx := { exprs := exprs, fns := fns }
-      -- the file is registered before its fragments (and stays registered when a fragment name is a duplicate)
-      match addDefined cfg cx root (m.templates ++ [(name, root)]) with
-      | .ok tpls => .ok { m with templates := tpls, files := m.files ++ [name], cx := cx }
-      | .err => .err | .panic => .panic | .unsupported => .unsupported
+
+def loadFiles (cfg : Cfg) (fns : List (String × FnSpec)) (files : List (String × String)) : LoadRes Mgr :=
+  loadFrom cfg fns 0 files (emptyMgr cfg fns)
 
 def fuelFor (_m : Mgr) : Nat := 100000
 
